@@ -149,6 +149,14 @@ class TrioEventLoop(EventLoop):
             True if the scope was cancelled, False if it was cancelled already
             before invoking this function
         """
+        for index, (_task, pending_scope, _args) in enumerate(self._pending_tasks):
+            if pending_scope is scope:
+                # The task has not been started yet (no nursery): Trio may be not running,
+                # so the scope state can not be queried. Just forget the task.
+                del self._pending_tasks[index]
+                scope.cancel()
+                return True
+
         existed = not scope.cancel_called
         scope.cancel()
         return existed
